@@ -28,7 +28,7 @@ def run(tier: str, seed: int) -> Report:
     )
     rep.assumptions = [
         "sqlite3 and pandas as installed are the executors; fresh in-memory SQLite connection per case, no result cache",
-        "accepted differences are exactly: cells derived from integer `/` and from `%`; 0-vs-NULL for sum/count/size over a group without non-null values (and cases where such cells feed a row-affecting position)",
+        "accepted differences are exactly: cells derived from integer `/` and from `%`; 0-vs-NULL for sum/count/size over a group without non-null values -- accepted in the sum/count-family output columns of a case in which such a group occurs on either back end (and such cases are excluded when those cells feed a row-affecting position)",
         "a result that SQL/pandas semantics leave undetermined (ties in a window order, limit cutting through ties) is not compared",
         "cbc.sem (reference model with divergence switches) is used only to name known divergences of failing cases, never to pass a case",
     ]
